@@ -209,7 +209,7 @@ def check_case(case):
             c.update_peaks_bounded(tuple(cur_range), None if not cur_kw else dict(cur_kw))
             pk.append((float(c.peak_frequency), float(c.peak_amplitude)))
         has_peak = np.array([not math.isnan(p[0]) for p in pk])
-        P = VP & has_peak
+        P = VP & has_peak & W          # "rejected windows never influence any statistic": a rejected window's peak does not count either
         P_f = np.array([pk[i][0] for i in range(nwin) if P[i]])
         P_a = np.array([pk[i][1] for i in range(nwin) if P[i]])
         if (VP & ~has_peak).any():
